@@ -279,12 +279,22 @@ func (e *Extractor) Pages(pages ...int) *Extractor {
 }
 
 // PageRange specifies a range of pages to extract (1-indexed, inclusive).
+// A range whose start is after its end is invalid; the error is reported by
+// the operation that uses the returned Extractor.
 //
 // Example:
 //
 //	text, _, err := tabula.Open("doc.pdf").PageRange(5, 10).Text()
 func (e *Extractor) PageRange(start, end int) *Extractor {
 	newExt := e.clone()
+	if start > end {
+		// An empty selection would otherwise be indistinguishable from
+		// "no selection" and silently extract every page.
+		if newExt.err == nil {
+			newExt.err = fmt.Errorf("invalid page range %d-%d: start is after end", start, end)
+		}
+		return newExt
+	}
 	for i := start; i <= end; i++ {
 		newExt.options.pages = append(newExt.options.pages, i)
 	}
